@@ -43,10 +43,6 @@ func init() {
 
 // Reasoned exceptions for ARITH.GUARD: construct → reason.
 var arithJustified = map[string]string{
-	"yang.FromInt: convert int64→uint64 of neg":         "uint64(-i) for i == MinInt64: -i wraps to MinInt64 and the conversion yields 2^63, the exact magnitude (two's complement)",
-	"yang.FromInt: neg int64":                           "see the conversion: the wrapped negation of MinInt64 converts to the exact magnitude 2^63",
-	"yang.FromInt: convert int64→uint64":                "reached with i >= 0 only (the i < 0 arm returned)",
-	"yang.decimalValueFromString: neg int64":            "v came from ParseInt(…, 64): for v == MinInt64 the wrapped negation converts to the exact magnitude 2^63",
 	"yang.decimalValueFromString: convert int64→uint64": "v >= 0 after the negation arm (MinInt64 maps to 2^63 exactly)",
 	"yang.pow10: mul uint64":                            "10^e fits a uint64 for e <= 19; the argument is a fraction-digits count (0..18) in every caller: Number.FractionDigits is 1..18 for decimals by RFC 7950 9.3.4 and by construction in ParseDecimal / Type.resolve (asRangeInt(1,18))",
 	"yang.pow10: add uint8":                             "loop counter below e <= 255",
@@ -54,20 +50,11 @@ var arithJustified = map[string]string{
 	"yang.(Number).frac: mul uint64 #2":                 "(Value mod 10^f) * 10^(18-f) < 10^18",
 	"yang.(Number).frac: sub uint64":                    "Value - Trunc()*10^f >= 0 (remainder)",
 	"yang.(Number).frac: sub uint8":                     "18 - f for f in 0..18 (fraction-digits domain)",
-	"yang.(Number).frac: convert int→uint8":             "18 - f in 0..18",
 	"yang.(Number).String: convert uint8→int":           "widening",
-	"yang.(Number).addQuantum: sub uint64":              "i - Value under the dominating Value <= i test; Value - i on its false edge",
-	"yang.(Number).addQuantum: sub uint64 #2":           "Value - i under Value > i",
-	"yang.(Number).addQuantum: sub uint64 #3":           "MaxUint64 - i cannot wrap",
-	"yang.(*EnumType).SetNext: add int64":               "last <= max <= 2^32 (ENUM.GUARD: last is only ever set from a value that passed the range tests), so last+1 cannot wrap",
-	"yang.NewEnumType: sub int64":                       "constant expression MinEnum - 1",
 	"yang.(*Type).resolve: convert int64→int":           "operand is the result of asRangeInt(1, 18)",
 	"yang.(*Type).resolve: convert int64→uint8":         "operand is the result of asRangeInt(1, 18)",
 	"yang.(*Type).resolve: convert int64→uint8 #2":      "operand is the result of asRangeInt(1, 18)",
 	"yang.(*Type).resolve: convert int→uint8":           "y.FractionDigits is 0 or the result of asRangeInt(1, 18) (TYPE.COPY: inherited unchanged)",
-	"yang.(*Type).resolve: convert int→uint8 #2":        "y.FractionDigits is 0 or the result of asRangeInt(1, 18) (TYPE.COPY: inherited unchanged)",
-	"yang.decimalValueFromString: convert int→uint8":    "dominated by len(s)-1-dx <= int(fracDigRequired) <= 18",
-	"yang.decimalValueFromString: sub uint8":            "fracDigRequired - fracDig with fracDig <= fracDigRequired established above",
 }
 
 // convertBoundExact decides a uint64→int64 conversion whose operand is compared with constants on
@@ -394,7 +381,7 @@ func ruleArithGuard(c *Ctx) []Obligation {
 				obs = append(obs, ok(R, con, pos, why))
 				return
 			}
-			if why, okj := arithJustified[con]; okj {
+			if why, okj := jget("arithJustified", arithJustified, con); okj {
 				// A justification is an argument about one expression: it applies only while the
 				// expression it was written for is still the one in the code.
 				fp := exprFP(in.(ssa.Value), 4)
